@@ -203,6 +203,9 @@ def _value_eq_class(cls, dunder):
     return r
 
 
+_IDHASH_COUNTER = [0]
+
+
 class AObj(Abs):
     """Instance of a repository class (or of a modelled class)."""
 
@@ -235,7 +238,14 @@ class AObj(Abs):
                     pass
                 finally:
                     it._in_value_eq -= 1
-        return object.__hash__(self)
+        # identity hash, but reproducible: CPython hashes such objects by address, so the iteration order of a set of
+        # them is arbitrary; a number drawn at the first hash request (counter restarted per interpretation, scrambled so
+        # that the order is not the creation order either) gives one such order - the same in every run
+        h = self.__dict__.get("_sa_idhash")
+        if h is None:
+            _IDHASH_COUNTER[0] += 1
+            h = self.__dict__["_sa_idhash"] = (_IDHASH_COUNTER[0] * 2654435761) & 0x3FFFFFFF
+        return h
 
     def __eq__(self, other):
         if self is other:
@@ -724,6 +734,7 @@ class Interp(object):
         self._in_value_eq = 0
         self._class_attr_vals = {}
         _CUR_INTERP[0] = self
+        _IDHASH_COUNTER[0] = 0
         self._callkeys = []              # (function, argument identities) of the interpreted frames
         self._lru = {}                   # results of functions under functools.lru_cache / cache
         self.work = 0                    # cost of linear-time primitives (list membership, copies, sorting ...): see cost()
